@@ -36,6 +36,9 @@ pub const BY_PREV: f64 = 0.0;
 
 const TWO_PI: f64 = 2.0 * PI;
 
+/// Slack (radians) that keeps the limits themselves inside the allowed range despite rounding.
+const BOUNDARY_EPS: f64 = 1e-10;
+
 impl Constraints {
     /// Create constraints that restrict the joint rotations between 'from' to 'to' values.
     /// Wrapping arround is supported so order is important. For instance,
@@ -155,7 +158,9 @@ impl Constraints {
         if difference > PI {
             difference = TWO_PI - difference;
         }
-        difference <= tolerance
+        // Boundaries are included: centre and half-width are rounded when they are derived
+        // from from/to, so an angle equal to a limit may come out a few ulp outside.
+        difference <= tolerance + BOUNDARY_EPS
     }
 
     /// Checks if all values in the given vector or angles satisfy these constraints.
